@@ -609,18 +609,22 @@ func sameFieldLoad(a, b ssa.Value) bool {
 // builderCall: one construction of a compare query inside a builder.
 type builderSite struct {
 	fn                *ssa.Function
-	call              ssa.Instruction // the constructor call, or the allocation of the query when the builder fills it itself
-	cmpType           *types.Named    // comparator type constructed
-	valType           *types.Named    // validator stored into an interface-embedded comparator (DirectEQ), if any
-	valStored         ssa.Value       // the value stored as that validator (a conversion to the interface, or a phi of such)
-	left              ssa.Value       // value assigned to the LEFT role
-	right             ssa.Value       // value assigned to the RIGHT role
-	viaPred, viaBlock *ssa.BasicBlock // the comparator is this phi operand: only on paths through this edge
+	call              ssa.Instruction       // the constructor call, or the allocation of the query when the builder fills it itself
+	cmpType           *types.Named          // comparator type constructed
+	valType           *types.Named          // validator stored into an interface-embedded comparator (DirectEQ), if any
+	valStored         ssa.Value             // the value stored as that validator (a conversion to the interface, or a phi of such)
+	left              ssa.Value             // value assigned to the LEFT role
+	right             ssa.Value             // value assigned to the RIGHT role
+	viaPred, viaBlock *ssa.BasicBlock       // the comparator is this phi operand: only on paths through this edge
+	prune             func(fp *fnPath) bool // paths that cannot be taken (set by builderSites)
 }
 
 // onPath: the site is constructed on this path.
 func (bs *builderSite) onPath(fp *fnPath) bool {
 	if !fp.contains(bs.call) {
+		return false
+	}
+	if bs.prune != nil && bs.prune(fp) {
 		return false
 	}
 	if bs.viaPred == nil {
@@ -875,7 +879,7 @@ func builderSites(c *engine.Context) []*builderSite {
 					}
 				}
 				for _, ch := range choices {
-					bs := &builderSite{fn: fn, call: call, left: rs.left, right: rs.right, viaPred: ch.pred, viaBlock: ch.blk}
+					bs := &builderSite{fn: fn, call: call, left: rs.left, right: rs.right, viaPred: ch.pred, viaBlock: ch.blk, prune: literalLenPrune(c)}
 					cmp := ch.v
 					if mi, ok := cmp.(*ssa.MakeInterface); ok {
 						if pt, ok := mi.X.Type().(*types.Pointer); ok {
@@ -1005,13 +1009,33 @@ func ruleVLiteral(c *engine.Context) *report.Rule {
 		case "deepeq":
 			// must be on the path where the right operand is NOT a literal parameter
 			nonLiteral := false
-			for _, dc := range conds {
-				if ex, ok := dc.cond.(*ssa.Extract); ok && !dc.taken {
-					if ta, ok := ex.Tuple.(*ssa.TypeAssert); ok {
-						if _, isPtr := ta.AssertedType.(*types.Pointer); isPtr {
-							nonLiteral = true
+			failedLiteralTest := func(cs []edgeCond) bool {
+				for _, dc := range cs {
+					if ex, ok := dc.cond.(*ssa.Extract); ok && !dc.taken {
+						if ta, ok := ex.Tuple.(*ssa.TypeAssert); ok {
+							if _, isPtr := ta.AssertedType.(*types.Pointer); isPtr {
+								return true
+							}
 						}
 					}
+				}
+				return false
+			}
+			nonLiteral = failedLiteralTest(conds)
+			if !nonLiteral {
+				// on every path that can be taken to this construction
+				if dpaths, complete := enumPaths(bs.fn, 256); complete {
+					all, n := true, 0
+					for _, fp := range dpaths {
+						if !bs.onPath(fp) {
+							continue
+						}
+						n++
+						if !failedLiteralTest(fp.conds) {
+							all = false
+						}
+					}
+					nonLiteral = all && n > 0
 				}
 			}
 			r.Oblige(nonLiteral)
@@ -1487,4 +1511,101 @@ func reaches(a, b ssa.Instruction) bool {
 		return false
 	}
 	return walk(a.Block())
+}
+
+// literalLenPrune: a path that takes the "no element" edge of a test of the length of a literal
+// operand's value list cannot be taken: every store into that field, anywhere, stores a list of
+// exactly one element (the classification L-CLASS uses), so `len(x.literal) > 0` is always true.
+func literalLenPrune(c *engine.Context) func(fp *fnPath) bool {
+	p := c.P
+	lit := literalQueryType(p)
+	if lit == nil {
+		return nil
+	}
+	oneElem := c.Memo("literalFieldIsOne", func() interface{} {
+		lc := &lclassCtx{p: p, comp: map[*ssa.Function]*ssa.Parameter{}}
+		ok, n := true, 0
+		for _, f2 := range p.Funcs {
+			for _, b := range f2.Blocks {
+				for _, ins := range b.Instrs {
+					st, isSt := ins.(*ssa.Store)
+					if !isSt {
+						continue
+					}
+					fa, isFA := st.Addr.(*ssa.FieldAddr)
+					if !isFA || fa.Field != 0 {
+						continue
+					}
+					pt, isP := fa.X.Type().Underlying().(*types.Pointer)
+					if !isP || !types.Identical(pt.Elem(), lit) {
+						continue
+					}
+					n++
+					if lc.classify(f2, nil, st.Val, map[ssa.Value]bool{}) != lcOne {
+						ok = false
+					}
+				}
+			}
+		}
+		return ok && n > 0
+	}).(bool)
+	if !oneElem {
+		return nil
+	}
+	return func(fp *fnPath) bool {
+		for _, ec := range fp.conds {
+			inner, neg := unwrapNot(ec.cond)
+			bo, isBo := inner.(*ssa.BinOp)
+			if !isBo {
+				continue
+			}
+			op, x, y := bo.Op, bo.X, bo.Y
+			if _, isLen := lenArg(x); !isLen {
+				if _, isLen2 := lenArg(y); !isLen2 {
+					continue
+				}
+				x, y = y, x
+				op = mirrorOp(op)
+			}
+			lx, _ := lenArg(x)
+			ld, isLd := lx.(*ssa.UnOp)
+			if !isLd {
+				continue
+			}
+			fa, isFA := ld.X.(*ssa.FieldAddr)
+			if !isFA || fa.Field != 0 {
+				continue
+			}
+			pt, isP := fa.X.Type().Underlying().(*types.Pointer)
+			if !isP || !types.Identical(pt.Elem(), lit) {
+				continue
+			}
+			cv, isC := cfgutilConst(y)
+			if !isC {
+				continue
+			}
+			// truth of the comparison for len == 1
+			var holds bool
+			switch op {
+			case token.GTR:
+				holds = 1 > cv
+			case token.GEQ:
+				holds = 1 >= cv
+			case token.LSS:
+				holds = 1 < cv
+			case token.LEQ:
+				holds = 1 <= cv
+			case token.EQL:
+				holds = 1 == cv
+			case token.NEQ:
+				holds = 1 != cv
+			default:
+				continue
+			}
+			if (ec.taken != neg) != holds {
+				return true
+			}
+		}
+		return false
+	}
 }
